@@ -255,10 +255,13 @@ def evaluate(ctx, progs, nval, nrep):
         raise common.BuildError("model taint: %d outputs for %d inputs" % (len(model), len(model_in)), "")
     lap("model")
     disagreements = []
+    wf_fail = []
     for i, mo in zip(ok_idx, model):
         ci = canon_result(parsed[i][3])
         try:
             cm = canon_result(sexp.parse(mo))
+            if cm.pop("wf", None) != ["1"]:
+                wf_fail.append(progs[i]["source"])
         except Exception:
             cm = {"model-output": [mo[:200]]}
         if ci != cm:
@@ -311,7 +314,7 @@ def evaluate(ctx, progs, nval, nrep):
                 if (kind, name) not in have:
                     corpus_fail.append({"corpus": p["corpus"], "problem": "finding %s `%s` missing" % (kind, name), "source": p["source"]})
     return {"status": status, "ok": len(ok_idx), "disagreements": disagreements, "failing": failing, "unmapped": unmapped,
-            "claims": claims, "claim_kinds": kinds, "oracle_runs": oracle_runs, "programs_with_claims": len(jobs), "corpus_fail": corpus_fail,
+            "claims": claims, "claim_kinds": kinds, "oracle_runs": oracle_runs, "programs_with_claims": len(jobs), "corpus_fail": corpus_fail, "wf_fail": wf_fail,
             "parsed": parsed, "impl": impl}
 
 
@@ -329,7 +332,7 @@ def merge(acc, res, base, progs, keep_samples):
         d = acc.setdefault(k, {})
         for a, b in res[k].items():
             d[a] = d.get(a, 0) + b
-    for k in ("disagreements", "failing", "unmapped", "corpus_fail"):
+    for k in ("disagreements", "failing", "unmapped", "corpus_fail", "wf_fail"):
         acc.setdefault(k, []).extend(res[k][:50])
     acc["n_disagreements"] = acc.get("n_disagreements", 0) + len(res["disagreements"])
     acc["n_failing"] = acc.get("n_failing", 0) + len(res["failing"])
@@ -389,6 +392,10 @@ def finish(ctx, proofs, res, feats, alph, nval, nrep):
                           % (res["n_disagreements"], res["ok"], d["sections"], d["impl_only"], d["model_only"]),
                           {"broken": "correspondence taint (Model.VarUse / Model.Taint / Model.SideEffect)", "first": d,
                            "count": res["n_disagreements"]}, no_input=True)
+        elif res["wf_fail"]:
+            ctx.violation("hypothesis ssa_wf_b of C09_noninterference is false on %d dumped cfgs" % len(res["wf_fail"]),
+                          {"broken": "hypothesis exported_targets_declared / csig_on_signals of props/C09.v", "first": res["wf_fail"][0]},
+                          no_input=True)
         elif res["unmapped"]:
             ctx.violation("oracle could not map %d findings to an assignment of the source" % len(res["unmapped"]),
                           {"broken": "oracle mapping finding -> source statement", "first": res["unmapped"][0]}, no_input=True)
@@ -418,6 +425,7 @@ def finish(ctx, proofs, res, feats, alph, nval, nrep):
         "alphabets": alph,
         "disagreements_model_vs_impl": res["n_disagreements"],
         "false_claims_found": res["n_failing"],
+        "hypothesis_ssa_wf_b_false_on": len(res["wf_fail"]),
         "open_statements": OPEN_STATEMENTS,
     })
     ctx.assumptions += ASSUMPTIONS
